@@ -156,7 +156,7 @@ func (c15) Gen(rt *rapid.T, thorough bool) any {
 			s.Attrs = append(s.Attrs, pa)
 		}
 		// layout element
-		s.Attrs = append(s.Attrs, PAttr{Name: "layout", How: rapid.SampledFrom([]string{"omit", "set", "set", "bad"}).Draw(rt, "layout_how"),
+		s.Attrs = append(s.Attrs, PAttr{Name: "layout", How: rapid.SampledFrom([]string{"omit", "set", "set", "bad", "untyped"}).Draw(rt, "layout_how"),
 			Val: rapid.SampledFrom([]string{"TextLayout", "JSONLayout"}).Draw(rt, "layout_type")})
 		s.Attrs = append(s.Attrs, PAttr{Name: "width", How: rapid.SampledFrom([]string{"omit", "set"}).Draw(rt, "width_how"), Val: rapid.SampledFrom([]string{"5", "48", "120"}).Draw(rt, "width")})
 	case "mutate":
@@ -272,13 +272,17 @@ func (c c15) runProbe(x *Exec, s *C15Scn) {
 			case "bad":
 				put("layout.type", "NoSuchLayout")
 				wantErr = "unknown layout type"
+			case "untyped":
+				// the element is present (it has an attribute) but names no plugin type
+				put("layout.fileLineLength", "33")
+				wantErr = "element layout present without a type"
 			}
 			continue
 		case "width":
 			if a.How == "set" {
 				hasLayout := false
 				for _, b := range s.Attrs {
-					if b.Name == "layout" && b.How != "omit" {
+					if b.Name == "layout" && (b.How == "set" || b.How == "bad") {
 						hasLayout = true
 					}
 				}
